@@ -207,6 +207,12 @@ def roundtrip(
             ok = False
         loaded = from_state_dict(state)
         inst = from_state_dict(state, as_instance=True)
+        if SHARD.get("gens", 1) >= 2:
+            # second generation: what was loaded is written and loaded again
+            state2 = state_dict(SerializationContext(), loaded)
+            if not json_native(state2):
+                ok = False
+            loaded = from_state_dict(state2)
     else:
         # the parameter-file path: object list, last object is the task
         objects = g.root.__xpm__.__get_objects__([], SerializationContext())
@@ -215,6 +221,9 @@ def roundtrip(
             ok = False
         loaded = ConfigInformation.fromParameters(objects, as_instance=False, discard_id=True)
         inst = ConfigInformation.fromParameters(objects, as_instance=True)
+        if SHARD.get("gens", 1) >= 2:
+            objects2 = loaded.__xpm__.__get_objects__([], SerializationContext())
+            loaded = ConfigInformation.fromParameters(objects2, as_instance=False, discard_id=True)
     iso = Iso()
     if not iso.config(g.root, loaded, "root"):
         rt.note("FAIL: reloaded graph differs:", iso.why)
@@ -303,7 +312,7 @@ def conditions(tier):
                 for mi in (0, 1, 2):
                     if mi and sk in ("flat", "floats", "pair", "nestedlists", "tasklist", "taskself"):
                         continue  # no unsealed sub-configuration to flag
-                    shard = {"sk": sk, "via": via, "lens": lens, "small_ints": 1, "meta": mi}
+                    shard = {"sk": sk, "via": via, "lens": lens, "small_ints": 1, "meta": mi, "gens": 2 if mi == 0 or tier == "thorough" else 1}
                     if sk == "shared":
                         shard["fixed_sels"] = [1] * 8
                     conds.append({"name": f"roundtrip/{sk}/{via}" + ("-" + "".join(map(str, lens)) if lens else "") + f"/meta{mi}", "func": "roundtrip", "shard": shard, "timeout": tmo})
